@@ -34,6 +34,16 @@ CLAIMS = {
              "builds are additionally compared with each other in lock-step.",
         technique="Lean 4 simulation proof between two interpreters + two real builds in lock-step",
         design="7 C02"),
+    'C13': dict(
+        text="Proof. Theorems Sx.C13_set_bandwidth, C13_set_spreading_factor, C13_override and their liftings to the cached build after any "
+             "history (C13_bandwidth_cached, C13_spreading_factor_cached, via the bridge step_cached_of_wp = C02 + C01): for each of the ten "
+             "bandwidths / seven spreading factors (checked against the regenerated enumerators by decide), every prior content of the three "
+             "modem-configuration registers (including reserved spreading-factor codes) and of the rest of the chip, the call returns OK and bit 3 "
+             "of RegModemConfig3 equals decide(2^SF*1000 > 16*BW) for the combination now programmed, every other bit of that register and every "
+             "other register unchanged; the explicit override sets exactly bit 3. Byte-level facts are decided over all 256 values in the kernel. "
+             "The monitor re-evaluates the rule on the real driver's trace for all 70 combinations in both call orders.",
+        technique="Lean 4 weakest-precondition proof over the model + kernel-decided byte facts + exhaustive combination scripts",
+        design="7 C13"),
     'C19': dict(
         text="Proof for the driver side, correspondence-only for the backends. Theorem Sx.C19_driver_requests_valid: for either build, any history "
              "(valid arguments, any chip, any schedule, any failing transfers) every transfer put on the bus carries 1..4 bytes (register calls) "
